@@ -552,6 +552,58 @@ def directed(tier):
         sb.op("pub %s" % sb.blob(b"end"))
         return sb
 
+    def s_caps_lengths(cases):
+        """Caps messages whose size array is shorter / exact / longer than the number of format bits"""
+        sb = SB()
+        for i in range(len(cases)):
+            sb.op("raw %d" % i)
+            sb.op("send %d %s" % (i, sb.blob(setenc([ENC_EXT]))))
+        for i, (nf, delta, acts) in enumerate(cases):
+            flags = CAPS | acts
+            for b in range(nf):
+                flags |= 1 << b
+            sizes = [100 + j for j in range(max(0, nf + delta))]
+            sb.op("send %d %s" % (i, sb.blob(cext(flags, b"".join(be32(x) for x in sizes)))))
+            sb.op("pub8 %s %s" % (sb.blob(b"t%d" % i), sb.blob(b"f")))
+        return sb
+
+    def s_seg_server():
+        """every 1-cut segmentation of a stream of five messages (server side reads)"""
+        sb = SB()
+        sb.op("raw 0"); sb.op("raw 1")
+        sb.op("send 0 %s" % sb.blob(setenc([ENC_EXT])))
+        sb.op("pub8 %s %s" % (sb.blob(b"cached \xc3\xa9"), sb.blob(b"cached ?")))
+        z = zsync(rec(b"h\xc3\xa9llo\0w\xff\0"))
+        sb.z(z)
+        msgs = [setenc([0, ENC_EXT]), cext(CAPS | TEXT | REQUEST | NOTIFY | PROVIDE, be32(100)), cct(b"hel\0lo"),
+                cext(PROVIDE | TEXT, z), cext(REQUEST | TEXT), cext(PEEK | TEXT)]
+        name = sb.cat(msgs)
+        total = sum(len(m) for m in msgs)
+        for c in range(1, total):
+            sb.op("cuts 0 s %d" % c)
+            sb.op("send 0 %s" % name)
+        return sb
+
+    def s_seg_client():
+        """every 1-cut segmentation of a stream of five messages (client library reads)"""
+        sb = SB()
+        sb.op("fsrv 0 1")
+        z = zlib.compress(rec(b"h\xc3\xa9llo\0w\xff\0"))
+        sb.z(z)
+        msgs = [sext(0x17000001, be32(LIMIT)), sct(b"hel\0lo"), sext(PROVIDE | TEXT, z), bytes([2]),
+                sext(NOTIFY | TEXT), sct(b"")]
+        name = sb.cat(msgs)
+        total = sum(len(m) for m in msgs)
+        for c in range(1, total):
+            sb.op("cuts 0 c %d" % c)
+            sb.op("fsend 0 %s" % name)
+        return sb
+
+    out += [("seg-all-1cut-server", s_seg_server()), ("seg-all-1cut-client", s_seg_client())]
+    out += [("caps-lengths-a", s_caps_lengths([(1, 0, PROVIDE | NOTIFY), (1, 1, PROVIDE), (1, -1, PROVIDE), (2, 1, NOTIFY),
+                                               (2, -1, NOTIFY), (16, 0, REQUEST | PROVIDE), (16, 1, PROVIDE), (16, -1, PROVIDE)])),
+            ("caps-lengths-b", s_caps_lengths([(0, 0, PROVIDE), (0, 2, PROVIDE), (3, 0, 0), (5, 3, PROVIDE), (5, -5, PROVIDE),
+                                               (7, 0, PEEK | NOTIFY | PROVIDE | REQUEST), (1, 16, PROVIDE), (4, 0, NOTIFY)]))]
     out += [("raw-classic-limit", s_raw_classic()), ("raw-ext-msglen-limit", s_raw_extlen()),
             ("raw-record-limit", s_raw_recsize()), ("unsolicited-limit", s_unsolicited()),
             ("fsrv-limits", s_fsrv_limits()), ("lib-limits", s_lib_limits())]
@@ -1175,7 +1227,7 @@ def run(ctx):
             jobs.append(("corpus/" + os.path.basename(p), txt, "# oracle-only" not in txt))
         for name, sb in directed(ctx.tier):
             jobs.append((name, sb.text(), sb.exact))
-        n = 260 if ctx.tier == "quick" else 4000
+        n = 160 if ctx.tier == "quick" else 3000
         for k in range(n):
             sb = gen_script(ctx.rng)
             jobs.append(("gen%d" % k, sb.text(), sb.exact))
@@ -1222,10 +1274,10 @@ def run(ctx):
 
 
 PARTIAL = [
-    "extended texts within ~0.1% below 1 MiB: whether they fit depends on the compressed size (hypothesis `4 + |compress r| <= limit` in the theorems); on LibVNCClient<->server links these lengths are checked by the direct oracle only",
+    "client_to_app_exact_partial / client_roundtrip_partial: the extended direction is proved for every text whose COMPRESSED message fits the 1 MiB message limit (exact characterisation; client_to_app_compressed_oversize proves the others are refused and the sender closed). The unrestricted statement 'every text up to 1 MiB' is false of the code for incompressible texts within a few hundred bytes of 1 MiB; on LibVNCClient<->server links these lengths are checked by the direct oracle only",
     "write failures / allocation failures of the senders are not modelled (peer buffers are large in the harness)",
     "SetEncodings is modelled only in its effect on the clipboard state; other message types are outside the model ('unmodelled')",
-    "segmentation: the model consumes the concatenated stream; independence from segmentation is exercised (interposed read() with 1-3 cuts + EAGAIN) but is a property of rfbReadExact/ReadFromRFBServer, not proved here",
+    "segmentation: the model consumes the concatenated stream; independence from segmentation is exercised (interposed read(): every 1-cut split of a six-message stream on either library, random 1-3 cuts elsewhere, each cut followed by one EAGAIN) but is a property of rfbReadExact/ReadFromRFBServer, not proved here",
 ]
 ASSUMPTIONS = [
     "single-threaded application-driven event loop (helper thread only during the LibVNCClient handshake)",
